@@ -66,8 +66,8 @@ type decoder struct {
 	cur     Msg
 	msgs    []Msg
 	opened  map[uint64]bool // identifiers of completely written open messages
-	nonBeat int    // number of non-heartbeat messages
-	err     string // first framing error; decoding stops there
+	nonBeat int             // number of non-heartbeat messages
+	err     string          // first framing error; decoding stops there
 	bytes   uint64
 }
 
